@@ -371,7 +371,8 @@ def r3(ctx, chk):
     chk.floor(rule + "b", nkeys, 15, "cache key expressions")
     w = ix.func(writer)
     wt = " ".join(ast.unparse(w.node).split())
-    ok = "cache.setdefault(self._settings.registry_key, {})[self.info['name']] = value" in wt
+    import re as _re
+    ok = _re.search(r"(\w+)\.setdefault\(self\._settings\.registry_key, \{\}\)\[self\.info\['name'\]\] = (\w+)", wt) is not None
     chk.ob(rule + "b", "_add_to_cache stores under (settings hash, locale name)", ok, "",
            key={"function": writer, "construct": "store keys"}, file=w.file, function=w.qual, line=w.node.lineno)
     # locale names are globally distinct
@@ -441,8 +442,9 @@ def r3(ctx, chk):
            key={"function": gk.key, "construct": "sorted + digest"}, file=gk.file, function=gk.qual, line=gk.node.lineno)
     rp = ix.func("dateparser.conf:Settings.replace")
     t_ = " ".join(ast.unparse(rp.node).split())
-    ok = "for x in self._get_settings_from_pyfile().keys(): kwds.setdefault(x, getattr(self, x))" in t_ and \
-        "return self.__class__(settings=kwds)" in t_
+    import re as _re
+    m_ = _re.search(r"for (\w+) in self\._get_settings_from_pyfile\(\)(?:\.keys\(\))?: (\w+)\.setdefault\(\1, getattr\(self, \1\)\)", t_)
+    ok = bool(m_) and _re.search(r"return (?:self\.__class__|type\(self\)|Settings)\(settings=%s\)" % (m_.group(2) if m_ else "x"), t_) is not None
     chk.ob(rule + "d", "replace() completes the dict with every default key before it is hashed", ok,
            "partial dicts would hash differently from equal complete ones (or equal for different effective settings)",
            key={"function": rp.key, "construct": "replace fills defaults"}, file=rp.file, function=rp.qual, line=rp.node.lineno)
@@ -527,14 +529,14 @@ def r5(ctx, chk):
             continue
         n += 1
         if cat != "FINDING":
-            chk.ob(rule, "%s: cached `%s` does not depend on the call's arguments" % (f.qual, c20.norm_target(target)), True)
+            chk.ob(rule, "%s: cached `%s` does not depend on the call's arguments" % (f.qual, c20.norm_target(target, ctx, f)), True)
             continue
         default_only = _only_default_settings(ctx, f)
-        chk.ob(rule, "%s: cached `%s` is independent of the first caller's settings" % (f.qual, c20.norm_target(target)),
+        chk.ob(rule, "%s: cached `%s` is independent of the first caller's settings" % (f.qual, c20.norm_target(target, ctx, f)),
                bool(default_only),
                "the value is built once per process from the settings of whichever call came first (%s), so later calls "
                "with other settings see a result that depends on call history" % detail[:120],
-               key={"function": f.key, "target": c20.norm_target(target)}, file=f.file, function=f.qual, line=node.lineno,
+               key={"function": f.key, "target": c20.norm_target(target, ctx, f)}, file=f.file, function=f.qual, line=node.lineno,
                text=" ".join(ast.unparse(node).split())[:120])
         if default_only:
             chk.note("%s: %s" % (f.qual, default_only))
